@@ -11,8 +11,12 @@ import time
 from concurrent.futures import ThreadPoolExecutor
 
 VERIF = "/verif"
-SCRATCH = os.path.join(VERIF, ".scratch")
-HARNESS = os.path.join(VERIF, "harness")
+# development overrides (bin/seedsweep runs checks against a scratch copy of the repository);
+# the registered commands never set them
+SCRATCH = os.environ.get("VERIF_SCRATCH", os.path.join(VERIF, ".scratch"))
+HARNESS = os.environ.get("VERIF_HARNESS", os.path.join(VERIF, "harness"))
+EVIDENCE = os.environ.get("VERIF_EVIDENCE", os.path.join(VERIF, "evidence"))
+REPLAYS = os.environ.get("VERIF_REPLAYS", os.path.join(VERIF, "replays"))
 EXPLORE = os.path.join(HARNESS, "target/release/explore")
 SPEC = os.path.join(VERIF, "spec")
 TLA_CP = "/opt/veriftools/tla/tla2tools.jar:/opt/veriftools/tla/CommunityModules-deps.jar"
@@ -45,7 +49,7 @@ def build_harness():
         log(p.stdout[-4000:])
         raise ToolError("harness build failed")
     h = hashlib.sha256()
-    for b in ("explore",):
+    for b in ("explore", "big"):
         with open(os.path.join(HARNESS, "target/release", b), "rb") as f:
             h.update(f.read())
     return h.hexdigest()[:16], time.time() - t0
@@ -60,10 +64,10 @@ def spec_hash():
     return h.hexdigest()[:16]
 
 
-def record_family(binhash, name, args, seed):
+def record_family(binhash, name, args, seed, binary="explore"):
     """run one scenario family of the explorer; traces are cached per harness binary (the binary
     contains the engine under test, so a cache hit means byte-identical code and arguments)."""
-    key = hashlib.sha256(("%s|%s|%s|%s" % (binhash, name, " ".join(args), seed)).encode()).hexdigest()[:16]
+    key = hashlib.sha256(("%s|%s|%s|%s|%s" % (binhash, binary, name, " ".join(args), seed)).encode()).hexdigest()[:16]
     d = os.path.join(SCRATCH, "traces", key)
     meta = os.path.join(d, "meta.json")
     if os.path.exists(meta):
@@ -76,7 +80,7 @@ def record_family(binhash, name, args, seed):
         shutil.rmtree(d)
     os.makedirs(d)
     t0 = time.time()
-    cmd = [EXPLORE] + args + ["out=" + d, "tag=" + name, "seed=%d" % seed, "threads=%d" % NCPU]
+    cmd = [os.path.join(HARNESS, "target/release", binary)] + args + ["out=" + d, "tag=" + name, "seed=%d" % seed, "threads=%d" % NCPU]
     p = subprocess.run(cmd, stdout=subprocess.PIPE, stderr=subprocess.PIPE, text=True, cwd=VERIF)
     if p.returncode != 0:
         log(p.stderr[-3000:])
@@ -85,20 +89,45 @@ def record_family(binhash, name, args, seed):
     m["cmd"] = " ".join(cmd)
     m["wall_s"] = time.time() - t0
     m["name"] = name
+    m["key"] = key
+    m["binhash"] = binhash
     with open(meta, "w") as f:
         json.dump(m, f)
     m["cached"] = False
     return m
 
 
-def gc_traces(keep_binhash_dirs):
-    """drop trace directories not produced in this run (disk is limited)"""
+def gc_traces(binhash, limit_bytes=6 << 30):
+    """disk is limited: when the recorded traces exceed the limit, drop the oldest directories
+    recorded from other builds of the engine"""
     base = os.path.join(SCRATCH, "traces")
     if not os.path.isdir(base):
         return
+    ents = []
+    total = 0
     for d in os.listdir(base):
-        if d not in keep_binhash_dirs:
-            shutil.rmtree(os.path.join(base, d), ignore_errors=True)
+        p = os.path.join(base, d)
+        size = 0
+        for f in os.listdir(p):
+            try:
+                size += os.path.getsize(os.path.join(p, f))
+            except OSError:
+                pass
+        total += size
+        bh = None
+        try:
+            with open(os.path.join(p, "meta.json")) as f:
+                bh = json.load(f).get("binhash")
+        except Exception:
+            pass
+        ents.append((os.path.getmtime(p), p, size, bh))
+    ents.sort()
+    for mt, p, size, bh in ents:
+        if total <= limit_bytes:
+            break
+        if bh != binhash:
+            shutil.rmtree(p, ignore_errors=True)
+            total -= size
 
 
 def write_cfg(path, props, maxviol=300):
@@ -154,6 +183,28 @@ def validate(shards, props, workdir):
     write_cfg(cfg, props)
     with ThreadPoolExecutor(max_workers=NCPU) as ex:
         return list(ex.map(lambda s: tlc_trace(s, cfg, workdir), shards))
+
+
+def validate_family(m, props, workdir):
+    """TLC validation of one recorded family for a set of property ids. The result is cached
+    next to the traces, keyed by the specification text and the property set: the traces
+    themselves are keyed by the harness binary (= the engine under test), so a hit means the
+    same code, the same scenarios and the same specification."""
+    key = hashlib.sha256(("%s|%s" % (spec_hash(), ",".join(sorted(props)))).encode()).hexdigest()[:16]
+    d = os.path.dirname(m["files"][0]) if m["files"] else None
+    cache = os.path.join(d, "val-%s.json" % key) if d else None
+    if cache and os.path.exists(cache) and not os.environ.get("VERIF_NOCACHE"):
+        with open(cache) as f:
+            r = json.load(f)
+        for x in r:
+            x["cached"] = True
+        return r
+    r = validate(m["files"], props, workdir)
+    if cache:
+        with open(cache + ".tmp", "w") as f:
+            json.dump(r, f)
+        os.replace(cache + ".tmp", cache)
+    return r
 
 
 # ---------------------------------------------------------------- reading shards back
@@ -232,6 +283,10 @@ class Shard:
                 te = self.get(c["twin"])
                 d["twin"] = {"end": te, "state": self.get(te["st"])}
             return d
+        if t == "big":
+            ctx = {"nodes": [], "kind": {}, "edges": [], "fail": [], "cmp": "exact", "evalno": 0,
+                   "edit": "%s %s/%s n=%s jobs=%s" % (r.get("shape"), r.get("family"), r.get("pattern"), r.get("n"), r.get("jobs"))}
+            return {"kind": "big", "ctx": ctx, "calls": [], "big": r}
         return {"kind": t, "rec": r}
 
 
